@@ -563,3 +563,7 @@ def run(rep, tier):
     eventless_by_type_bit(rep, 'R12.9')
     # ---- R12.10 names derived from event names for the VHDL back-end
     vhdl_names(rep, 'R12.10')
+    # ---- R12.11 names derived from event names for the Promela back-end (C06 R06.7)
+    rep.rule('R12.11', 'statically resolved matches keep event names apart in the Promela model too: the macro names the analyzer allocates are unique and stay identifiers (events that differ in case only must not end up with the code of one another)')
+    from . import C06
+    C06.unique_names(rep, facts.FactBase(C06.TUS + ['src/uscxml/transform/promela/PromelaCodeAnalyzer.cpp']), 'R12.11')
